@@ -7,7 +7,6 @@ package websocket
 // that the Dialer's configuration trusts. None of this runs symbolically.
 
 import (
-	"io"
 	"bufio"
 	"crypto/ecdsa"
 	"crypto/elliptic"
@@ -15,6 +14,7 @@ import (
 	"crypto/tls"
 	"crypto/x509"
 	"crypto/x509/pkix"
+	"io"
 	"math/big"
 	"net"
 	"net/http"
@@ -80,11 +80,11 @@ func vfClientTLSBase(c *tls.Config) {
 }
 
 type vfHop struct {
-	tls      bool // a TLS server handshake with a certificate for name
-	name     string
-	trusted  bool
-	connect  bool // read a CONNECT request and answer 200
-	socks    bool // RFC 1928 negotiation: no authentication, CONNECT granted
+	tls     bool // a TLS server handshake with a certificate for name
+	name    string
+	trusted bool
+	connect bool // read a CONNECT request and answer 200
+	socks   bool // RFC 1928 negotiation: no authentication, CONNECT granted
 }
 
 // vfNativePeer serves the far end of a piped connection.
